@@ -56,8 +56,10 @@ Exp(v, p) == [some |-> IF api = "diff" THEN v <= Total(mode, WS) ELSE p < Total(
               virt |-> v, pv |-> p]
 Entry(c, r, v, p) == [a |-> c, o |-> Obs(mode, WS, r), x |-> Exp(v, p)]
 
+Call(s, c) == IF api = "perf" THEN PerfNth(mode, WS, s, c[2]) ELSE DoCall(mode, WS, s, c)
+
 Step(c) ==
-  LET r == DoCall(mode, WS, g, c) IN
+  LET r == Call(g, c) IN
   /\ g' = r.st
   /\ virt' = VirtAfter(c)
   /\ pv' = virt
@@ -129,7 +131,7 @@ AlgebraInv == CountAlgebraOk
 (* Scenario printer: one line per distinct state (hist is hidden by VIEW). *)
 StateView == <<api, mode, objs, g, virt, pv, last>>
 
-SuccOf == { Entry(c, DoCall(mode, WS, g, c), VirtAfter(c), virt) :
+SuccOf == { Entry(c, Call(g, c), VirtAfter(c), virt) :
               c \in {c \in Calls : (api = "perf" => c[1] = "nth") /\ ~g.panic} }
 
 Scenario == [api |-> api, mode |-> mode, objs |-> objs, units |-> WS, path |-> obsHist,
